@@ -21,7 +21,9 @@ so enc8() is the byte itself and the "append 0 bits until len(z) mod 8 == 0" loo
 SIG = {
     # step 1 of 2.3.1, verbatim: the smallest positive integer n with 2**(8n) > x.  Existence and uniqueness for every
     # x >= 0 are elementary; the three conjuncts below are exactly "positive", "2**(8n) > x" and "no smaller positive n does".
-    'enc_n': {'sort': 'int', 'uf': True,
+    # (not 'uf': the proofs of _left_encode/_right_encode list enc_n as opaque and use ONLY these facts; the executable body
+    # below serves the native replay of counter-models, where x is a concrete integer)
+    'enc_n': {'sort': 'int',
               'facts': ['x >= 0 ==> (result >= 1 and x < pow2(8 * result) and (result == 1 or x >= pow2(8 * (result - 1))))']},
     'left_encode': 'bytes', 'right_encode': 'bytes', 'encode_string': 'bytes', 'bytepad': 'bytes', 'pad_count': 'int[nat]',
     'cshake_prefix': 'bytes', 'cshake_domain': 'int[nat]', 'kmac_key_block': 'bytes',
@@ -29,7 +31,10 @@ SIG = {
 
 
 def enc_n(x):
-    pass
+    """executable form for concrete x (replay only): 2**(8n) > x  <=>  8n >= bit_length(x), so n = max(1, ceil(bit_length(x) / 8))"""
+    if x == 0:
+        return 1
+    return (x.bit_length() + 7) // 8
 
 
 def left_encode(x):
